@@ -217,7 +217,7 @@ fn lexi_x_to_9(x: &str, incl: bool) -> Result<String> {
             Ok(mk_or(parts))
         }
     } else if x.is_empty() {
-        Ok("[0-9]*[1-9]".to_string())
+        Ok("[0-9]*[1-9][0-9]*".to_string())
     } else {
         let x0 = x
             .chars()
@@ -243,7 +243,7 @@ fn lexi_x_to_9(x: &str, incl: bool) -> Result<String> {
 fn lexi_0_to_x(x: &str, incl: bool) -> Result<String> {
     if x.is_empty() {
         if incl {
-            Ok("".to_string())
+            Ok("0*".to_string())
         } else {
             Err(anyhow!("Inclusive flag must be true for an empty string"))
         }
@@ -381,7 +381,7 @@ pub fn rx_float_range(
             if right == 0.0 {
                 let r = format!("-{}", rx_float_range(Some(0.0), None, false, false)?);
                 if right_inclusive {
-                    Ok(mk_or(vec![r, "0".to_string()]))
+                    Ok(mk_or(vec![r, "0(\\.0+)?".to_string()]))
                 } else {
                     Ok(r)
                 }
@@ -407,7 +407,12 @@ pub fn rx_float_range(
             }
             if left == right {
                 if left_inclusive && right_inclusive {
-                    Ok(format!("({})", escape(&float_to_str(left))))
+                    let s = float_to_str(left);
+                    if s.contains('.') {
+                        Ok(format!("({}0*)", escape(&s)))
+                    } else {
+                        Ok(format!("({}(\\.0+)?)", escape(&s)))
+                    }
                 } else {
                     Err(anyhow!(
                         "Empty range when left equals right and not both inclusive"
